@@ -578,12 +578,33 @@ ORACLES = {"C01": oracle_C01, "C02": oracle_C02, "C03": oracle_C03, "C07": oracl
            "C10": oracle_C10, "C14": oracle_C14, "C15": oracle_C15}
 
 
+def directed(prop):
+    """fixed scenarios that every run of a property's stage includes"""
+    out = []
+    if prop in ("C08", "C14"):
+        # a group whose max-threads is smaller than the threads-required of one of its members, with
+        # enough other members queued that the group limit is what holds them back
+        tests = [dict(bin="alpha::t1", name=f"t{i:02d}_a", ignored=False, attempts=[{"sleep": 0.18, "exit": 0}],
+                      expect=["pass"], mode="pass") for i in range(7)]
+        out.append(dict(tests=tests, retries=0, delay_ms=0, backoff="fixed", failfast="noff", threads=4, filter=None,
+                        run_ignored="default", sigint_at=None, priorities=None,
+                        groups=dict(name="g1", max_threads=2, members="_a", heavy="t00_a", heavy_weight=3)))
+        tests2 = [dict(bin=b, name=f"t{i:02d}_b", ignored=False, attempts=[{"sleep": 0.12, "exit": 0}],
+                       expect=["pass"], mode="pass") for i, b in enumerate(["beta::t1", "alpha::t2", "beta::t2", "alpha::t1",
+                                                                             "beta::t1", "alpha::t2"])]
+        out.append(dict(tests=tests2, retries=1, delay_ms=0, backoff="fixed", failfast="noff", threads=8, filter=None,
+                        run_ignored="default", sigint_at=None, priorities=None,
+                        groups=dict(name="g1", max_threads=1, members="_b", heavy="t01_b", heavy_weight=8)))
+    return out
+
+
 def stage(chk, prop, tier, seed, n_quick=14, n_thorough=120, par=4, gen=None):
     """run generated scenarios and apply the oracle of one property; reports at most one violation"""
     rig = e2e.Rig()
     r = vlib.rng_for(seed, "e2e-general-" + prop)
     n = n_thorough if tier == "thorough" else n_quick
-    scs = [(gen or gen_scenario)(r) for _ in range(n)]
+    scs = directed(prop) + [(gen or gen_scenario)(r) for _ in range(n)]
+    n = len(scs)
     results = [None] * n
     idx = list(range(n))
     lock = threading.Lock()
